@@ -5,6 +5,7 @@ package plugin
 
 import (
 	"encoding/json"
+	"fmt"
 	"time"
 )
 
@@ -45,18 +46,32 @@ func parseJSON(input []byte) (*logEntry, error) {
 	}
 
 	// Parse hclog-specific objects
+	// The hclog-specific fields must be strings. If they are not, this is
+	// JSON from something other than hclog and not a log entry.
 	if v, ok := raw["@message"]; ok {
-		entry.Message = v.(string)
+		s, ok := v.(string)
+		if !ok {
+			return nil, fmt.Errorf("@message is not a string: %v", v)
+		}
+		entry.Message = s
 		delete(raw, "@message")
 	}
 
 	if v, ok := raw["@level"]; ok {
-		entry.Level = v.(string)
+		s, ok := v.(string)
+		if !ok {
+			return nil, fmt.Errorf("@level is not a string: %v", v)
+		}
+		entry.Level = s
 		delete(raw, "@level")
 	}
 
 	if v, ok := raw["@timestamp"]; ok {
-		t, err := time.Parse("2006-01-02T15:04:05.000000Z07:00", v.(string))
+		s, ok := v.(string)
+		if !ok {
+			return nil, fmt.Errorf("@timestamp is not a string: %v", v)
+		}
+		t, err := time.Parse("2006-01-02T15:04:05.000000Z07:00", s)
 		if err != nil {
 			return nil, err
 		}
